@@ -2,6 +2,7 @@ package props
 
 import (
 	"astverif/errflow"
+	"astverif/extrarules"
 	"astverif/ownership"
 )
 
@@ -32,4 +33,5 @@ func c08(c *Ctx) {
 	ownership.PacketSizeFlow(c.P, r)
 	ownership.ResyncIdentity(c.P, r)
 	ownership.ReadFullExact(c.P, r)
+	extrarules.FirstMatchWins(c.P, r, "autoDetectPacketSize")
 }
